@@ -140,6 +140,41 @@ def native_seq(out):
     return seq, out['conns'][0]['closed_by_server']
 
 
+def native_short_write(ck, problems):
+    """a response is only partly written when the socket's send buffer is full: 16 pipelined gets of a 1 MiB value to a client
+    that does not read for a while; every response must still arrive whole and in order"""
+    key = b'big'
+    val = bytes(range(256)) * 4000      # 1 024 000 bytes
+    setf = frame(0x01, key, b'\0' * 8, val, opaque=1)
+    gets = b''.join(frame(0x00, key, opaque=100 + i) for i in range(16)) + frame(0x0a, opaque=999)
+    sc = {'kind': 'socket', 'item_limit': 1 << 21, 'timeout_secs': 5,
+          'conns': [{'chunks': [setf.hex(), gets.hex()], 'pause_ms': 700, 'read_ms': 4000, 'end': 'hold'}]}
+    out = ck.replay([sc])[0]
+    got = bytes.fromhex(out['conns'][0]['received'])
+    ok_ = True
+    pos = 0
+    seen = []
+    while pos + 24 <= len(got):
+        r = parse_response(got[pos:pos + 24] + b'')
+        if r is None or r['magic'] != 0x81:
+            ok_ = False
+            break
+        body = got[pos + 24:pos + 24 + r['body']]
+        if len(body) < r['body']:
+            ok_ = False
+            break
+        if r['opcode'] == 0x00 and r['status'] == 0 and body[4:] != val:
+            ok_ = False
+            break
+        seen.append((r['opcode'], r['opaque']))
+        pos += 24 + r['body']
+    want = [(1, 1)] + [(0, 100 + i) for i in range(16)] + [(0x0a, 999)]
+    ok_ = ok_ and seen == want
+    desc = f"{'; '.join(problems)} | native: set of a 1 MiB value, then 16 pipelined gets + noop to a client that reads late: " \
+           f"{len(seen)} well-formed responses in order out of 18" + ('' if ok_ else ' - the response stream is corrupted (a response was cut short)')
+    return (None if ok_ else True), desc, sc
+
+
 def explore_first(ck, first, m, menu_n, tier, end):
     E = ck.E
     st = St(1)
@@ -160,6 +195,7 @@ def explore_first(ck, first, m, menu_n, tier, end):
         x.frames = frames
         x.total = total
         x.nreads = sum(1 for e in E.events if e[0] == 'read' and not isinstance(e[1], str))
+        x.events = list(E.events)
         return x
     res = ck.explore(h)
     nval = 0
@@ -174,6 +210,8 @@ def explore_first(ck, first, m, menu_n, tier, end):
         opsn = [f[1][0] for f in x.frames]
 
         def on_w(m_, where, x=x, problems=problems, seq=seq):
+            if any(e[0] == 'write' and e[1] == 'short' for e in x.events):
+                return native_short_write(ck, problems)
             sc = scen_for(m_, x.frames, x.total, x.nreads, end)
             out = ck.replay([sc])[0]
             nseq, nclosed = native_seq(out)
